@@ -824,6 +824,21 @@ var specBuiltins = map[string]builtinSpec{
 	"splitpart":   {"splitpart", []Sort{SString, SString, SInt}, SString, tString},
 }
 
+// specLibFuncs: pure deterministic library functions usable in contracts as
+// lib.Func(receiver, args...); they denote the same uninterpreted functions
+// as calls in the code.
+var specLibFuncs = map[string]types.Type{
+	"time.Time.Unix":        types.Typ[types.Int64],
+	"time.Time.UnixNano":    types.Typ[types.Int64],
+	"time.Duration.Seconds": types.Typ[types.Float64],
+	"strconv.FormatInt":     types.Typ[types.String],
+	"strings.TrimSpace":     types.Typ[types.String],
+	"strings.ToLower":       types.Typ[types.String],
+	"strings.LastIndex":     types.Typ[types.Int],
+	"time.Time.Before":      types.Typ[types.Bool],
+	"time.Time.After":       types.Typ[types.Bool],
+}
+
 func (e *Engine) declBuiltin(name string) {
 	b := specBuiltins[name]
 	var as []string
@@ -843,6 +858,10 @@ func (sc *Scope) trCall(x *ECall) (Term, types.Type) {
 	case *ESel:
 		if id, ok := f.X.(*EIdent); ok {
 			name = id.Name + "." + f.Name
+		} else if inner, ok := f.X.(*ESel); ok {
+			if id, ok := inner.X.(*EIdent); ok {
+				name = id.Name + "." + inner.Name + "." + f.Name
+			}
 		}
 	}
 	if name == "" {
@@ -925,7 +944,7 @@ func (sc *Scope) trCall(x *ECall) (Term, types.Type) {
 		t, _ := arg(0)
 		ty := types.Universe.Lookup(name).Type()
 		if t.Sort == SReal {
-			return T(SInt, "(to_int %s)", t.S), ty
+			return T(SInt, "(ite (>= %[1]s 0.0) (to_int %[1]s) (- (to_int (- %[1]s))))", t.S), ty
 		}
 		return t, ty
 	case "float64":
@@ -995,6 +1014,19 @@ func (sc *Scope) trCall(x *ECall) (Term, types.Type) {
 		// iface(x): the interface value holding x
 		t, ty := arg(0)
 		return fc.box(ty, t), types.Universe.Lookup("error").Type()
+	}
+	if rt, ok := specLibFuncs[name]; ok {
+		// deterministic library function: the same uninterpreted function the code model uses
+		var as []Term
+		var sorts []string
+		for i := range x.Args {
+			t, _ := arg(i)
+			as = append(as, t)
+			sorts = append(sorts, string(t.Sort))
+		}
+		uf := fmt.Sprintf("uf_%s_0", mangle(name))
+		fc.eng.GDecl(uf, fmt.Sprintf("(declare-fun %s (%s) %s)", uf, strings.Join(sorts, " "), u.SortOf(rt)))
+		return App(u.SortOf(rt), uf, as...), rt
 	}
 	if b, ok := specBuiltins[name]; ok {
 		fc.eng.declBuiltin(name)
@@ -1142,11 +1174,28 @@ func (e *Engine) pureUF(fn *ssa.Function, i int) (string, Sort) {
 // pureCall: a Go function with a "pure" contract used inside a contract.
 func (sc *Scope) pureCall(name string, x *ECall) (Term, types.Type, bool) {
 	fc := sc.fc
-	if sc.pkg == nil || strings.Contains(name, ".") {
+	if sc.pkg == nil {
 		return Term{}, nil, false
 	}
-	obj, ok := sc.pkg.Scope().Lookup(name).(*types.Func)
-	if !ok {
+	parts := strings.Split(name, ".")
+	pkg := sc.pkg
+	if len(parts) > 1 {
+		if ip := sc.importedPkg(parts[0]); ip != nil {
+			pkg = ip
+			parts = parts[1:]
+		}
+	}
+	var obj *types.Func
+	switch len(parts) {
+	case 1:
+		obj, _ = pkg.Scope().Lookup(parts[0]).(*types.Func)
+	case 2:
+		if tn, ok := pkg.Scope().Lookup(parts[0]).(*types.TypeName); ok {
+			o, _, _ := types.LookupFieldOrMethod(types.NewPointer(tn.Type()), true, pkg, parts[1])
+			obj, _ = o.(*types.Func)
+		}
+	}
+	if obj == nil {
 		return Term{}, nil, false
 	}
 	fn := fc.eng.Prog.FuncValue(obj)
